@@ -432,8 +432,11 @@ var c15MAC = probe.Define("C15", "at-mac", c15Gen, c15Oracle)
 
 func TestC15(t *testing.T) {
 	c := probe.NewCtx(t, "C15")
+	idleStart(c, "received-mac")
 	if c.Shard == 0 {
 		endurance(c, "C15", "aka-setattr-gaps", 70000)
+		endurance(c, "C15", "mac-after-many-decodes", 30000)
 	}
 	c15MAC.Run(c, t, c.N(1500, 15000))
+	idleFinish(c, "C15", "received-mac")
 }
